@@ -175,6 +175,53 @@ class Runner:
             if f.startswith(("m", "s")) and f.endswith((".geom", ".cond", ".tri")): os.remove(os.path.join(wd, f))
         return res
 
+def closed_form_pieces(ck, runner, cfgs, rng):
+    """The parts of the pipeline that are closed forms, not discretisations, must equal the oracle's closed forms at the
+    ROUNDING class (1e-10 x natural scale): DipSource2MEGMat = mag_factor * biot_savart_primary . ori/|ori|  (the primary-current
+    half of GainMEG; radial_component_primary_only relates it to Sarvas) and DipSource2InternalPotMat = infinite_pot(sigma_1)."""
+    wd = ck.workdir; icases = []; mcases = []; metas = []
+    for c in cfgs:
+        runner.n += 1; ident = runner.n
+        write_geometry(c, 1, wd, ident)
+        pts = []
+        while len(pts) < 10:
+            p = S.scal(c["radii"][0] * 0.75 * rng.random() ** (1 / 3.0), unit(rng))
+            if all(S.norm(S.sub(p, d["pos"])) > 0.05 * c["radii"][0] for d in c["dipoles"]): pts.append(list(p))
+        ce = c["centre"]; fl = []
+        for d in c["dipoles"]: fl += shift(d["pos"], ce) + d["mom"]
+        for p in pts: fl += shift(p, ce)
+        for m in c["meg"]: fl += shift(m["pos"], ce) + m["ori"]
+        icases.append(core.fcase("c01p", [ident, len(c["dipoles"]), len(pts), len(c["meg"])], fl))
+        fm = list(c["radii"]) + list(c["sigmas"])
+        for d in c["dipoles"]: fm += d["pos"] + d["mom"]
+        for p in pts: fm += p
+        for m in c["meg"]: fm += m["pos"] + m["ori"]
+        mcases.append(core.fcase("c01", [3, len(c["radii"]), 1, len(c["dipoles"]), len(pts), len(c["meg"])], fm))
+        metas.append((c, pts))
+    mo = core.run_model(mcases)
+    rc, io, err = core.run_harness(runner.hb, icases, wd, env={"OMP_NUM_THREADS": "1"})
+    n = 0; worst = 0.0
+    for (c, pts), m, i, ic in zip(metas, mo, io, icases):
+        mz, mf = core.fparse(m); iz, if_ = core.fparse(i)
+        nd, nm = len(c["dipoles"]), len(c["meg"])
+        if iz is None or iz[0] != 0 or iz[1] != len(pts) or len(if_) != len(mf):
+            ck.violation("closed-form pieces: pipeline failure", "DipSource2MEGMat / DipSource2InternalPotMat failed or dropped points (%s) on %s" % (i[:60], describe(c, 1)),
+                         dict(kind="closed-form", config=c, points=pts, case=ic)); continue
+        for k, (x, y) in enumerate(zip(if_, mf)):
+            j = k % nd; d = c["dipoles"][j]
+            if k < nm * nd:
+                a = S.norm(S.sub(c["meg"][k // nd]["pos"], d["pos"])); scale = 1e-7 * S.norm(d["mom"]) / (a * a); what = "DipSource2MEGMat vs biot_savart_primary"
+            else:
+                a = S.norm(S.sub(pts[(k - nm * nd) // nd], d["pos"])); scale = S.norm(d["mom"]) / (4 * math.pi * c["sigmas"][0] * a * a); what = "DipSource2InternalPotMat vs infinite_pot"
+            n += 1; worst = max(worst, abs(x - y) / scale)
+            if not core.close(x, y, 1e-10, scale):
+                ck.violation("closed-form piece differs from the oracle: %s" % what.split()[0],
+                             "%s: library %r, oracle %r (natural scale %.3g) for dipole %d (position %s, moment %s); %s. The oracle is the stated closed form, so this input fails the property's own relation." % (what, x, y, scale, j, d["pos"], d["mom"], describe(c, 1)),
+                             dict(kind="closed-form", config=c, points=pts, case=ic, index=k, library=x, oracle=y)); break
+    for f in os.listdir(wd):
+        if f.startswith(("m", "s")) and f.endswith((".geom", ".cond", ".tri")): os.remove(os.path.join(wd, f))
+    return n, worst
+
 # ------------------------------------------------------------------ bounds
 def load_calib():
     return json.load(open(CALIB)) if os.path.exists(CALIB) else None
@@ -328,7 +375,17 @@ def main(replay=None, calibrate=False):
                 if bad:
                     j, mname, v, b = bad[0]
                     ck.violation(rp.get("signature", "replay"), "replayed configuration still fails: %s = %.4g > %.4g (dipole %d); %s" % (mname, v, b, j, describe(cfg, level)), rp)
-        ck.cov.update(evaluations=runner.evals, distinct_nontrivial=runner.evals, rule="replay of one stored configuration")
+        if rp.get("kind") == "closed-form":
+            cfg = rp["config"]; runner.n += 1
+            write_geometry(cfg, 1, ck.workdir, runner.n)
+            toks = rp["case"].split(); toks[1] = str(runner.n)
+            rc_, io_, _ = core.run_harness(hb, [" ".join(toks)], ck.workdir)
+            iz, if_ = core.fparse(io_[0])
+            x = if_[rp["index"]] if iz and iz[0] == 0 and rp["index"] < len(if_) else float("nan")
+            ck.log("replay closed-form: library %r oracle %r" % (x, rp["oracle"]))
+            if not core.close(x, rp["oracle"], 1e-10, max(abs(rp["oracle"]), abs(rp["library"]))):
+                ck.violation(rp.get("signature", "replay"), "replayed closed-form piece still differs: library %r, oracle %r" % (x, rp["oracle"]), rp)
+        ck.cov.update(evaluations=max(1, runner.evals), distinct_nontrivial=max(1, runner.evals), rule="replay of one stored configuration", samples=[rp.get("description", "")[:300]])
         return ck.finish()
 
     # ---- configurations
@@ -434,6 +491,8 @@ def main(replay=None, calibrate=False):
                          "the MEG gain changes by %.3g (relative, l2; calibrated level %.3g) between conductivities %s and %s; %s" % (e2, cal["meg_sigma"], ["%.4g" % s for s in c["sigmas"]], ["%.4g" % s for s in s2], describe(c, 1)),
                          dict(kind="sphere-config", config=c, level=1, sigmas2=s2, gain=a, gain2=d))
 
+    ncf, wcf = (0, 0.0) if calibrate else closed_form_pieces(ck, runner, cfgs[:20 if quick else 100], rng)
+
     if calibrate:
         table, fb = build_table(obs)
         ms = [v for (f, mn, v) in obs if mn == "meg_sigma"]
@@ -454,7 +513,8 @@ def main(replay=None, calibrate=False):
         import shutil; shutil.rmtree(ck.workdir, ignore_errors=True)
         return 0
 
-    ck.cov.update(evaluations=runner.evals + oracle_checks, distinct_nontrivial=nontriv,
+    ck.cov.update(closed_form_piece_values_compared=ncf, closed_form_piece_worst_error_over_scale=wcf,
+                  evaluations=runner.evals + oracle_checks, distinct_nontrivial=nontriv,
                   rule="one evaluation = one full pipeline run (HeadMat, invert, DipSourceMat, Head2EEG/MEG, gains) on a generated nested-sphere model compared with the extracted oracle; distinct non-trivial = (configuration, resolution, dipole) triples with at least one metric evaluated; random 1-4 layers, radius ratios U[0.6,0.98], adjacent conductivity ratios log-U[1/100,100] or 1/80, 80, 1/15, 15, 1, outer radius 1 or log-U[0.5,2], centre 0 or random, 6 dipoles/configuration (2 radial, 2 tangential, 2 generic; eccentricity bins <=0.4, <=0.6, <=0.8 of the inner radius), electrodes = 42 outer-mesh vertices + 12 generic surface points, 18 MEG sensors at 1.05-1.5 R (radial / tangential / generic orientation)",
                   samples=samples, op_distribution=dist, worst_observed={"L%d %s" % k: round(v, 5) for k, v in sorted(worst.items())},
                   refinement=[dict(metric=n, frm=NVERT[a], to=NVERT[b], before=round(x, 5), after=round(y, 5)) for (n, a, b, x, y) in sorted(refine, key=lambda r: -r[2])][:24],
